@@ -86,6 +86,10 @@ func (d *rawDecoder) Scan(ctx context.Context) (DecodedAmmo, error) {
 		}
 
 		data, err = d.reader.ReadString('\n')
+		if err == io.EOF && strings.TrimSpace(data) != "" {
+			// the last line of a file without a final newline: a size line like any other
+			err = nil
+		}
 		if err == io.EOF {
 			d.passNum++
 			if d.config.Passes != 0 && d.passNum >= d.config.Passes {
